@@ -255,6 +255,27 @@ NegCover(m, wide, where) ==
   ELSE <<Set("v", Hide(CovU, CovVals[m])), Set("k", Hide(kty, CovVals[o])), Set("r", Match(V("v"), arms2)), V("r")>>
 NegCoverSeq == SetToSeq({<<m, w, wh>> : m \in 1..4, w \in BOOLEAN, wh \in {"fn", "top"}})
 
+\* A function declared to return int whose body ends in a `loop' that CAN be left by a break falls off its end: it must
+\* be refused wherever the break stands - in particular inside the initialiser of a declaration, which holds statements
+\* (x := if c { break } else { v }).  If an implementation accepts one, the call is judged by its events (the result must
+\* be an int) and the addition must not panic.
+BrkIf == If(Bin(">", Deref(V("i")), V("n")), Block(<<Break>>), Block(<<Deref(V("i"))>>))
+FallBody(where) ==
+  CASE where = "set-if"       -> <<Set("x", BrkIf)>>
+    [] where = "destruct-if"  -> <<Destruct(<<"a", "b">>, If(Bin(">", Deref(V("i")), V("n")), Block(<<Break>>), Block(<<TupE(<<I(1), I(2)>>)>>)))>>
+    [] where = "set-match"    -> <<Set("x", Match(Bin(">", Deref(V("i")), V("n")), <<ArmVal(<<B(TRUE)>>, Block(<<Break>>)), ArmOther(I(1))>>))>>
+    [] where = "set-block"    -> <<Set("x", Block(<<If1(Bin(">", Deref(V("i")), V("n")), Block(<<Break>>)), I(1)>>))>>
+    [] where = "set-ifset"    -> <<Set("x", IfSet("y", WInt, Hide(WMulti(<<WInt, WVoid>>), I(1)), Block(<<If1(Bin(">", Deref(V("i")), V("n")), Block(<<Break>>)), V("y")>>), I(0)))>>
+    [] where = "nested-block" -> <<Block(<<Block(<<If1(Bin(">", Deref(V("i")), V("n")), Block(<<Break>>))>>)>>)>>
+    [] where = "match-arm"    -> <<Match(Bin(">", Deref(V("i")), V("n")), <<ArmVal(<<B(TRUE)>>, Block(<<Break>>)), ArmOther(Unit)>>)>>
+    [] where = "ifset-body"   -> <<IfSet("y", WInt, Hide(WMulti(<<WInt, WVoid>>), I(1)), Block(<<If1(Bin(">", Deref(V("i")), V("n")), Block(<<Break>>))>>), NoneV)>>
+    [] where = "plain"        -> <<If1(Bin(">", Deref(V("i")), V("n")), Block(<<Break>>))>>
+FallWheres == <<"set-if", "destruct-if", "set-match", "set-block", "set-ifset", "nested-block", "match-arm", "ifset-body", "plain">>
+NegFall(where) ==
+  <<FnDecl("f", <<P("n", WInt)>>, WInt,
+           <<Set("i", MutE(WInt, I(0))), Loop(Block(<<Asg("+=", V("i"), I(1))>> \o FallBody(where)))>>),
+    Bin("+", CallE(V("f"), <<Hide(WInt, I(3))>>), I(1))>>
+
 Init == row = 0
 Next == \/ row = 0 /\ row' \in {-c : c \in 1..Chunks}
         \/ row < 0 /\ row' \in {i \in 1..N : i % Chunks = (-row) % Chunks}
@@ -273,6 +294,9 @@ Emit ==
                                    exp |-> [status |-> "rejected", v |-> VoidV, log |-> <<>>]]]
         \o [i \in 1..Len(NegCoverSeq) |-> [id |-> "c12t-negcover-" \o ToString(i), suite |-> "c12t", negative |-> TRUE,
                                    prog |-> NegCover(NegCoverSeq[i][1], NegCoverSeq[i][2], NegCoverSeq[i][3]),
+                                   exp |-> [status |-> "rejected", v |-> VoidV, log |-> <<>>]]]
+        \o [i \in 1..Len(FallWheres) |-> [id |-> "c12t-negfall-" \o FallWheres[i], suite |-> "c12t", negative |-> TRUE,
+                                   prog |-> NegFall(FallWheres[i]),
                                    exp |-> [status |-> "rejected", v |-> VoidV, log |-> <<>>]]])
   /\ PrintT(<<"CASES", N, NV>>)
 =============================================================================
